@@ -5,9 +5,16 @@
     returned exactly that error: nothing is replaced, wrapped or fabricated. (The model has no
     handler; the correspondence check replays fault-injected runs of the real code through it,
     so a handler introduced in the code shows up as a disagreement.)
-  * `no_handler_reaches_user`: about the *source*: the table of every `try/except` in
-    `lbfgsb/*.py`, regenerated from /repo on every run by translate/handlers2lean.py, contains
-    no handler whose body can reach a user callable (conservative name-based call graph).
+  * `handlers_transparent`: about the *source*: in the table of every `try/except` in
+    `lbfgsb/*.py`, regenerated from /repo on every run by translate/handlers2lean.py, every
+    handler whose body can reach a user callable (conservative name-based call graph, functions
+    handed over as arguments included) is *transparent*: each clause re-raises the caught exception
+    object itself, or carries it in a private class that is unwrapped again (`raise c.args[0]`) by a
+    handler around the only place the carrying function is handed to — so what reaches the caller is
+    the user's exception object. (Until the repair 9f4464d of /repo there was no such handler at all and
+    the theorem read "no handler reaches a user callable"; the repair needs one pair, to carry a
+    `StopIteration` of the objective across the differencing routine's internal iterator.)
+    `no_swallowing_handler_reaches_user`: in particular none of them ends without raising.
   * `no_residue`: a failed run leaves nothing behind because there is nowhere to leave it: the
     tables of every module-level / class-level mutable object, memoised function, function
     attribute and mutable default argument of the package (regenerated from the source on every run
@@ -29,9 +36,15 @@ variable [Add α] [Sub α] [Mul α] [Div α] [Neg α] [LT α] [DecidableLT α]
 theorem error_is_users (u : User α ε) (o : Oracles α δ) (c : Cfg α) (e : ε)
     (h : minimize u o c = .error e) : UserErr u e := minimize_err h
 
-/-- **C20 (2)** no `try` body in the package can reach a user callable. -/
-theorem no_handler_reaches_user :
-    Generated.handlers.all (fun h => !h.reachesUser) = true := by decide
+/-- **C20 (2)** every `try` of the package whose body can reach a user callable is transparent:
+its clauses only re-raise the caught exception object (directly, or through a private carrier that is
+unwrapped again). -/
+theorem handlers_transparent :
+    Generated.handlers.all (fun h => !h.reachesUser || h.transparent) = true := by decide
+
+/-- … and none of them has a clause that ends without raising. -/
+theorem no_swallowing_handler_reaches_user :
+    Generated.handlers.all (fun h => !(h.reachesUser && h.swallows)) = true := by decide
 
 /-- **C20 (3)** nothing is left behind: the package has no state that outlives a call. -/
 theorem no_residue :
